@@ -115,7 +115,8 @@ def narrowing_casts(ctx, cg):
             ctx.check(fits, "V6", "narrowing-cast-of-a-configured-number:%s:%s->%s" % (root.rsplit("::", 1)[-1], sty, dty), ctx.where(b, st["sp"]),
                       "`as %s` drops the high bits of a %s whose range is not known to fit (%s, range %s): a configured value beyond the "
                       "target type silently becomes another value" % (dty, sty, show(t)[:100], rg))
-    ctx.floor("V6", "narrowing casts in the loader", n, 1)
+    if ctx.config in ("default", "dhcp"):      # the one narrowing cast of the loader is Ipv4Subnet::netmask, reached through the DHCP section
+        ctx.floor("V6", "narrowing casts in the loader", n, 1)
 
 
 def validation_rules(ctx, cg):
